@@ -285,21 +285,45 @@ class _AccountTotalLoop(heap.MapLoopSpec):
         return [('entry-is-the-portfolio-figure', z3.Select(d.cols[''], k) == self.figure(k) if '' in d.cols else z3.BoolVal(False))]
 
 
+class _QuietMapLoop(heap.MapLoop):
+    """the cut loop of an EARLIER call whose own correctness is not re-verified: invariant assumed, nothing recorded"""
+
+    def havoc(self, env, names, state=()):
+        c = ctx()
+        n = len(c.obs)
+        out = super().havoc(env, names, state)
+        del c.obs[n:]
+        return out
+
+    def preserved(self, env):
+        raise Abort()
+
+
 def _account_total(c, method, figname, dname, accname, loopid):
     w, w2, a = c.key('w'), c.key('w2'), c.key('a')
     W, b = world(c, [w, w2], [a])
     fig = {'tmv': W.tmv, 'equity': W.equity}[figname]
     if c.mode == 'sym':
         c.assume(liftk(w) != heap.keylit('master'))       # a portfolio called 'master' would collide with the total's key
-        spec = _AccountTotalLoop(W, lambda p: lift(fig(SymKey(p), W.pre)), dname, accname)
+    # an earlier query followed by a transfer must not influence this query (no stale memo)
+    amt = c.real('transfer_before_the_query', lambda r: r.choice([10.0, 250.5]))
+    if c.mode == 'sym':
+        heap.LOOPSPEC[loopid] = lambda lid, it, env: _QuietMapLoop(lid, it, env, _AccountTotalLoop(W, lambda p: lift(fig(SymKey(p))), dname, accname))
+    outcome(lambda: getattr(b, method)())
+    outcome(lambda: b.subscribe_funds_to_account(amt))
+    r0, _ = outcome(lambda: b.subscribe_funds_to_portfolio(w, amt))
+    pre = W.snapshot()
+    if c.mode == 'sym':
+        spec = _AccountTotalLoop(W, lambda p: lift(fig(SymKey(p), pre)), dname, accname)
         heap.LOOPSPEC[loopid] = lambda lid, it, env: heap.MapLoop(lid, it, env, spec)
     r, d = outcome(lambda: getattr(b, method)())
+    heap.LOOPSPEC.pop(loopid, None)
     c.ob('always-obtainable', r == 'ok', props=['C01'])
     if r != 'ok':
         return
-    c.ob('master-entry-is-sum-of-per-portfolio-figures', EQ(VAL(d, 'master'), W.sum_over_portfolios(fig, W.pre)), props=['C01'])
-    c.ob('per-portfolio-entry-is-its-figure', IMPLIES(W.exists(w, W.pre), AND(HAS(d, w), EQ(VAL(d, w), fig(w, W.pre)))), props=['C01'])
-    c.ob('getter-changes-nothing', W.all_same(W.pre), props=['C01', 'C15'])
+    c.ob('master-entry-is-sum-of-per-portfolio-figures', EQ(VAL(d, 'master'), W.sum_over_portfolios(fig, pre)), props=['C01'])
+    c.ob('per-portfolio-entry-is-its-figure', IMPLIES(W.exists(w, pre), AND(HAS(d, w), EQ(VAL(d, w), fig(w, pre)))), props=['C01'])
+    c.ob('getter-changes-nothing', W.all_same(pre), props=['C01', 'C15'])
 
 
 @harness('SimulatedBroker.get_account_total_equity', props=['C01', 'C02', 'C14'], layer='L2', functions=BR_FUNCS)
@@ -516,8 +540,9 @@ class MarkOuter:
                                                                       z3.Select(W.pclk, p) == z3.Select(S['pclk'], p))))
         return z3.And(*out)
 
-    def havoc(self, env, names):
+    def havoc(self, env, names, state=()):
         c = self.G.c
+        heap.check_state(L_MARK_P, state, ())
         _ob(c, '#mark-portfolios:init', self.inv(EMPTY, [self.G.p0]))
         self.done = c.fresh('marked_portfolios', AKB)
         self.W.havoc(['price', 'pclk'], 'mark')
@@ -568,8 +593,9 @@ class MarkInner:
                                                 z3.Select(W.pclk, G.p0) == z3.Select(S['pclk'], G.p0))))
         return z3.And(*out)
 
-    def havoc(self, env, names):
+    def havoc(self, env, names, state=()):
         c = self.G.c
+        heap.check_state(L_MARK_A, state, ())
         _ob(c, '#mark-assets:init', self.inv(EMPTY, [self.G.a0]))
         self.done = c.fresh('marked_assets', AKB)
         self.W.havoc(['price', 'pclk'], 'markA')
@@ -630,8 +656,9 @@ class DrainOuter:
             out.append(z3.Select(W.Q, p) == z3.If(z3.Select(done, p), NOSEQ, z3.Select(S['Q'], p)))
         return z3.And(*out)
 
-    def havoc(self, env, names):
+    def havoc(self, env, names, state=()):
         c = self.G.c
+        heap.check_state(L_DRAIN_P, state, ('orders',))
         c.assume(ALLIN(NOSEQ))
         _ob(c, '#drain-portfolios:init', self.inv(_orders(env, self.W), EMPTY, [self.G.p0]))
         self.done = c.fresh('drained', AKB)
@@ -681,8 +708,9 @@ class DrainInner:
             z3.Implies(k != G.p0, z3.Select(W.Q, G.p0) == z3.Select(S['Q'], G.p0)),
             ALLOWNED(z3.Select(W.Q, k), k), ALLIN(orders.seq))
 
-    def havoc(self, env, names):
+    def havoc(self, env, names, state=()):
         c = self.G.c
+        heap.check_state(L_DRAIN_W, state, ('orders',))
         _ob(c, '#drain-queue:init', self.inv(self.o3))
         self.W.havoc(['Q'], 'drainW')
         new = OrdersList(self.W, c.fresh('orders_w', SO))
@@ -723,8 +751,9 @@ class ExecLoop:
                 ('held-iff-nonzero', sel2(W.held, G.p0, G.a0) == (sel2(W.qty, G.p0, G.a0) != 0)),
                 ('portfolios-queues-master-untouched', z3.And(W.pdom == S['pdom'], W.qdom == S['qdom'], W.Q == S['Q']))]
 
-    def havoc(self, env, names):
+    def havoc(self, env, names, state=()):
         c, G = self.G.c, self.G
+        heap.check_state(L_EXEC, state, ())
         c.assume(LEDGER(NOSEQ, G.p0) == 0)
         c.assume(NETQ(NOSEQ, G.p0, G.a0) == 0)
         for n, f in self.inv(NOSEQ, self.T):
@@ -894,6 +923,9 @@ def br_update_conc(c):
         return
     pend = {p: [(x[0], x[1]) for x in pre['pf'][p]['pending']] for p in pre['pf']}
     fills = [(f['p'], f['asset'], f['quantity']) for f in W.fills]
+    filled = {(f['p'], f['asset']) for f in W.fills}
+    c.ob('open/held-assets-not-traded-are-marked-at-mid-of-dt',
+         all(EQ(W.price_(p, a), mid(a)) for p in pre['pf'] for a in pre['pf'][p]['pos'] if (p, a) not in filled and W.held_(p, a)), props=['C02'])
     c.ob('open/all-queues-drained', all(W.pending_empty(p) for p in pre['pf']), props=['C04'])
     c.ob('open/fills-of-a-portfolio-are-its-pending-orders-sells-first-in-submission-order',
          all([(a, q) for (pp, a, q) in fills if pp == p] == _stable_partition(pend[p]) for p in pre['pf']), props=['C04', 'C18', 'C01'])
